@@ -287,11 +287,11 @@ c11_setop!(c11_setops_setunion_2x2, thorough, 5, setop_setunion, 2, 2);
 c11_setop!(c11_setops_setdiff_2x2, quick, 4, setop_filter, 2, 2, SetDiff);
 c11_setop!(c11_setops_inter_3x3, quick, 6, setop_filter, 3, 3, Inter);
 c11_setop!(c11_setops_inter1small_3x3, quick, 4, setop_filter, 3, 3, Inter1Small);
-c11_setop!(c11_setops_interfast_3x3, thorough, 6, setop_fast, 3, 3, InterFast);
-c11_setop!(c11_setops_interfast_3x1, thorough, 6, setop_fast, 3, 1, InterFast);
-c11_setop!(c11_setops_interfast_4x1, thorough, 7, setop_fast, 4, 1, InterFast);
+c11_setop!(c11_setops_interfast_3x3, probe, 6, setop_fast, 3, 3, InterFast);
+c11_setop!(c11_setops_interfast_3x1, probe, 6, setop_fast, 3, 1, InterFast);
+c11_setop!(c11_setops_interfast_4x1, probe, 7, setop_fast, 4, 1, InterFast);
 c11_setop!(c11_setops_inter2fast_3x1, thorough, 6, setop_fast, 3, 1, Inter2Fast);
-c11_setop!(c11_setops_interfast_1x3, thorough, 6, setop_fast, 1, 3, InterFast);
+c11_setop!(c11_setops_interfast_1x3, probe, 6, setop_fast, 1, 3, InterFast);
 c11_setop!(c11_setops_inter2_3x3, quick, 6, setop_filter, 3, 3, Inter2);
 c11_setop!(c11_setops_inter2small_3x3, quick, 4, setop_filter, 3, 3, Inter2Small);
 c11_setop!(c11_setops_inter2fast_3x3, thorough, 6, setop_fast, 3, 3, Inter2Fast);
@@ -299,7 +299,7 @@ c11_setop!(c11_setops_union_3x3, quick, 7, setop_union, 3, 3);
 c11_setop!(c11_setops_diff_3x3, thorough, 6, setop_filter, 3, 3, Diff);
 c11_setop!(c11_setops_setinter_3x3, thorough, 6, setop_filter, 3, 3, SetInter);
 c11_setop!(c11_setops_setunion_3x3, quick, 7, setop_setunion, 3, 3);
-c11_setop!(c11_setops_setdiff_3x3, thorough, 6, setop_filter, 3, 3, SetDiff);
+c11_setop!(c11_setops_setdiff_3x3, probe, 6, setop_filter, 3, 3, SetDiff);
 
 // ------------------------------------------------------------------------------------------
 // set_unique / set_unique_default
@@ -468,11 +468,11 @@ macro_rules! c11_radix_u64 {
     };
 }
 c11_radix_u32!(c11_radix_u32_n2_bits4, quick, 17, 2, 4);
-c11_radix_u32!(c11_radix_u32_n2_bits8, thorough, 257, 2, 8);
-c11_radix_u32!(c11_radix_u32_n3_bits4, thorough, 17, 3, 4);
-c11_radix_u32!(c11_radix_u32_n3_bits8, thorough, 257, 3, 8);
-c11_radix_u64!(c11_radix_u64_n2_bits8, thorough, 257, 2, 8);
-c11_radix_u64!(c11_radix_u64_n3_bits4, thorough, 17, 3, 4);
+c11_radix_u32!(c11_radix_u32_n2_bits8, probe, 257, 2, 8);
+c11_radix_u32!(c11_radix_u32_n3_bits4, probe, 17, 3, 4);
+c11_radix_u32!(c11_radix_u32_n3_bits8, probe, 257, 3, 8);
+c11_radix_u64!(c11_radix_u64_n2_bits8, probe, 257, 2, 8);
+c11_radix_u64!(c11_radix_u64_n3_bits4, probe, 17, 3, 4);
 
 // ---- counting-sort scratch size (default configuration) -----------------------------------
 
@@ -499,7 +499,7 @@ pub fn alloc_zeroed_limited(layout: std::alloc::Layout) -> *mut u8 {
 zv_harness! {
     name: c11_radix_u32_default_alloc_n1,
     prop: "C11",
-    tier: thorough,
+    tier: probe,
     unwind: 66,
     stubs: [alloc::fmt::format => crate::common::stubs::fmt_format,
             std::time::Instant::now => crate::common::stubs::instant_now,
@@ -577,8 +577,8 @@ macro_rules! c11_kv {
         }
     };
 }
-c11_kv!(c11_kv_radix_n2, thorough, 257, 2);
-c11_kv!(c11_kv_radix_n3, thorough, 257, 3);
+c11_kv!(c11_kv_radix_n2, probe, 257, 2);
+c11_kv!(c11_kv_radix_n3, probe, 257, 3);
 
 // ---- AdvancedRadixSort ----------------------------------------------------------------------
 
@@ -654,9 +654,9 @@ macro_rules! c11_adv_u32 {
 c11_adv_u32!(c11_adv_insertion_n3, quick, 5, 3, Insertion, 8);
 c11_adv_u32!(c11_adv_default_n3, thorough, 5, 3, Default, 8);
 c11_adv_u32!(c11_adv_tim_n3, thorough, 5, 3, Tim, 8);
-c11_adv_u32!(c11_adv_lsd_n2_bits4, thorough, 17, 2, Lsd, 4);
-c11_adv_u32!(c11_adv_lsd_n3_bits4, thorough, 17, 3, Lsd, 4);
-c11_adv_u32!(c11_adv_msd_n2, thorough, 258, 2, Msd, 8);
+c11_adv_u32!(c11_adv_lsd_n2_bits4, probe, 17, 2, Lsd, 4);
+c11_adv_u32!(c11_adv_lsd_n3_bits4, probe, 17, 3, Lsd, 4);
+c11_adv_u32!(c11_adv_msd_n2, probe, 258, 2, Msd, 8);
 
 fn adv_str_check<const LA: usize, const LB: usize>(st: Strat) {
     let a: [u8; LA] = vany();
@@ -717,8 +717,8 @@ macro_rules! c11_adv_str {
         }
     };
 }
-c11_adv_str!(c11_adv_str_default_2x1, thorough, 10, 2, 1, Default);
-c11_adv_str!(c11_adv_str_default_2x2, thorough, 10, 2, 2, Default);
+c11_adv_str!(c11_adv_str_default_2x1, probe, 10, 2, 1, Default);
+c11_adv_str!(c11_adv_str_default_2x2, probe, 10, 2, 2, Default);
 
 // ------------------------------------------------------------------------------------------
 // merges
@@ -872,7 +872,7 @@ macro_rules! c11_losertree {
 }
 c11_losertree!(c11_losertree_k1_l3, quick, 5, 1, 3, 3);
 c11_losertree!(c11_losertree_k2_l2, quick, 6, 2, 2, 4);
-c11_losertree!(c11_losertree_k3_l2, thorough, 8, 3, 2, 6);
+c11_losertree!(c11_losertree_k3_l2, probe, 8, 3, 2, 6);
 
 zv_harness! {
     name: c11_losertree_k0,
@@ -953,8 +953,8 @@ macro_rules! c11_multiway {
 }
 c11_multiway!(c11_multiway_heap_k2_l2, quick, 6, 2, 2, 4, false);
 c11_multiway!(c11_multiway_single_k1_l3, quick, 5, 1, 3, 3, false);
-c11_multiway!(c11_multiway_heap_k3_l2, thorough, 8, 3, 2, 6, false);
-c11_multiway!(c11_multiway_tournament_k9_l1, thorough, 11, 9, 1, 9, true);
+c11_multiway!(c11_multiway_heap_k3_l2, probe, 8, 3, 2, 6, false);
+c11_multiway!(c11_multiway_tournament_k9_l1, probe, 11, 9, 1, 9, true);
 
 macro_rules! c11_multiway_hier {
     ($name:ident, $tier:ident, $unwind:literal, $k:literal, $l:literal, $m:literal, $ways:literal) => {
@@ -973,5 +973,5 @@ macro_rules! c11_multiway_hier {
         }
     };
 }
-c11_multiway_hier!(c11_multiway_hier_k3_l1_w1, thorough, 8, 3, 1, 3, 1);
-c11_multiway_hier!(c11_multiway_hier_k5_l1_w2, thorough, 10, 5, 1, 5, 2);
+c11_multiway_hier!(c11_multiway_hier_k3_l1_w1, probe, 8, 3, 1, 3, 1);
+c11_multiway_hier!(c11_multiway_hier_k5_l1_w2, probe, 10, 5, 1, 5, 2);
